@@ -130,7 +130,7 @@ def sstep (s : SState) (ws : List String) : SState × String :=
     -- the visit function returns 7 on its `stopAt`-th call (0-based), else 0
     match getL l, parseInt? stopAt with
     | some (_, hd), some k =>
-      let (vis, r) := foreach s.m hd (fun i _ => if (i : Int) = k then 7 else 0)
+      let (vis, r) := foreach s.m hd (fun i _ => if (i : Int) = k then stopValue k else 0)
       fin s (toString r ++ " " ++ showList vis)
     | _, _ => bad
   | ["clear", l] =>
